@@ -6,6 +6,7 @@
    state, cond_mono (the condition survives apply_func_defs) to transport "cond = true". *)
 From Coq Require Import List NArith Bool.
 From Engine Require Import Model FactsBasic FactsInv FactsOps FactsClose FactsSound FactsFam FactsIdem FactsRun Run ExSemilattice Regress.
+From Engine Require Import FactsStep FactsLeast FactsIso.
 Import ListNotations.
 Local Open Scope N_scope.
 
@@ -77,3 +78,18 @@ Proof. vm_compute. repeat split; reflexivity. Qed.
 
 Example C07_ex_regress : closed_after after_drop = false /\ closed_after after_fixed = true.
 Proof. vm_compute. split; reflexivity. Qed.
+
+(* ---- added with the least-model characterisation (FactsLeast.v, FactsIso.v) ---- *)
+(* C07_cu_resume_full, proved under the side conditions FamErase (family shape) and WellTyped of the two
+   closed states (typing facts the untyped model does not track; decidable, FactsLeastB.well_typed_b):
+   closing after ANY return of close_until yields a model isomorphic, by a map that fixes every element
+   of the state in which close_until was called, to the model a direct close yields. *)
+Theorem C07_cu_resume_iso : forall P src A cond fuel s r b f1 f2 r1 r2,
+  wf_rules (fp_rules P) -> FamOK src (fp_rules P) -> FamErase src (fp_rules P) ->
+  Reach P A s -> exec_close_until fuel P cond s = Some (r, b) ->
+  exec_close_until f1 P (fun _ => false) r = Some (r1, false) ->
+  exec_close_until f2 P (fun _ => false) s = Some (r2, false) ->
+  WellTyped P r1 -> WellTyped P r2 ->
+  exists h, (forall e, e < next_id s -> rep r2 (h e) = rep r2 e) /\ iso_via h r1 r2.
+Proof. exact cu_resume_iso. Qed.
+Print Assumptions C07_cu_resume_iso.
